@@ -42,6 +42,11 @@ type Ws = tokio_tungstenite::WebSocketStream<tokio::net::TcpStream>;
 const WINDOW: Duration = Duration::from_secs(12);
 const ROUTES: [&str; 5] = ["json_blocking", "json_ctx_blocking", "typed_blocking", "typed_ctx_blocking", "erased_offreader"];
 static CONN_IDS: AtomicU64 = AtomicU64::new(1);
+#[derive(Debug)]
+struct ScriptedPanicPayload {
+    #[allow(dead_code)]
+    token: u64,
+}
 static PLAIN_PANICS: AtomicU64 = AtomicU64::new(0);
 
 // ------------------------------------------------------------------ scripts
@@ -352,7 +357,14 @@ fn park(sh: &Shared, v: &Value) -> Result<Value, (ErrorCode, String)> {
         // an unwind out of the handler) so that a thorough run does not print 10^5 panic messages;
         // the first three of a run are plain `panic!`s.
         Out::Panic if PLAIN_PANICS.fetch_add(1, Ordering::Relaxed) < 3 => panic!("c16 scripted handler panic {tok}"),
-        Out::Panic => std::panic::resume_unwind(Box::new(format!("c16 scripted handler panic {tok}"))),
+        // panic payloads of every shape a handler can produce: String, &'static str, and non-string payloads
+        // (std::panic::panic_any / a resumed foreign payload); the reply must not depend on the payload type
+        Out::Panic => match tok % 4 {
+            0 => std::panic::resume_unwind(Box::new(format!("c16 scripted handler panic {tok}"))),
+            1 => std::panic::resume_unwind(Box::new("c16 scripted handler panic (static str)")),
+            2 => std::panic::resume_unwind(Box::new(ScriptedPanicPayload { token: tok })),
+            _ => std::panic::resume_unwind(Box::new(tok)),
+        },
     }
 }
 
